@@ -299,6 +299,9 @@ pub fn engine(rep: &mut Report, focus: &str, n: usize, seed: u64, thorough: bool
         c13_ascii_sweep(rep);
         c13_long_ranges(rep, &mut rng, thorough);
     }
+    if focus == "C02" || focus == "C05" {
+        crate::scope::deep_attempt_scope(rep, focus, thorough);
+    }
     if focus == "C02" || focus == "C03" {
         look_scope(rep, &mut rng, focus, thorough);
         crate::scope::class_boundary_scope(rep, &mut rng, thorough);
